@@ -12,12 +12,12 @@ abbrev Addr := Bytes
 structure Entry where
   addrs : List Addr := []
   failed : Nat := 0
-  deriving Repr, BEq, DecidableEq
+  deriving Repr, DecidableEq
 
 inductive Outcome where
   | ok (addrs : List Addr)
   | fail
-  deriving Repr, BEq, DecidableEq
+  deriving Repr, DecidableEq
 
 /-- `strArraySub(a1, a2)`: elements of a1 not in a2, order kept. -/
 def sub (a1 a2 : List Addr) : List Addr := a1.filter (fun s => !a2.contains s)
@@ -41,31 +41,34 @@ def step (e : Entry) : Outcome → Entry × Option (List Addr × List Addr)
 def hostPort (ip port : Bytes) : Bytes :=
   if contains 58 ip then [91] ++ ip ++ [93, 58] ++ port else ip ++ [58] ++ port
 
-/-- `hostIPChanged`: add every new address, then remove every vanished one. Also returns the
-add/remove events delivered to the proxy's index (in order). -/
-def applyChange (rr : Side.RR.St) (port : Bytes) (newA remA : List Addr) : Side.RR.St × List (Bool × Addr) :=
-  let rr1 := newA.foldl (fun s ip => Side.RR.add s (hostPort ip port)) rr
-  let evAdd := newA.map (fun ip => (true, hostPort ip port))
-  let (rr2, evRem) := remA.foldl (fun (acc : Side.RR.St × List (Bool × Addr)) ip =>
-      let (s', notified) := Side.RR.remove acc.1 (hostPort ip port)
-      (s', if notified then acc.2 ++ [(false, hostPort ip port)] else acc.2)) (rr1, [])
-  (rr2, evAdd ++ evRem)
+/-- The rotation together with the proxy's address index (`Proxy.backends` keys). With quiescence
+between steps every Add/RemoveBackend notification has been applied by the proxy loop before the
+next step, so the two are updated together. -/
+structure Rot where
+  rr : Side.RR.St := {}
+  index : List Addr := []
+  deriving Repr, DecidableEq
 
-/-- the proxy's address index (`Proxy.backends` keys) after applying events in order. -/
-def applyIndex (idx : List Addr) (evs : List (Bool × Addr)) : List Addr :=
-  evs.foldl (fun i e => if e.1 then (if i.contains e.2 then i else i ++ [e.2]) else i.erase e.2) idx
+/-- `AddBackend` + `HandleBackendAdded` applied by the loop. -/
+def Rot.add (r : Rot) (a : Addr) : Rot :=
+  { rr := Side.RR.add r.rr a, index := if r.index.contains a then r.index else r.index ++ [a] }
+
+/-- `RemoveBackend` (+ `HandleBackendRemoved` when the address was registered). -/
+def Rot.remove (r : Rot) (a : Addr) : Rot :=
+  { rr := (Side.RR.remove r.rr a).1, index := if (Side.RR.remove r.rr a).2 then r.index.erase a else r.index }
+
+/-- `hostIPChanged`: add every new address, then remove every vanished one. -/
+def applyChange (r : Rot) (port : Bytes) (newA remA : List Addr) : Rot :=
+  (remA.map (hostPort · port)).foldl Rot.remove ((newA.map (hostPort · port)).foldl Rot.add r)
 
 structure World where
   entry : Entry := {}
-  rr : Side.RR.St := {}
-  index : List Addr := []
-  deriving Repr, BEq, DecidableEq
+  rot : Rot := {}
+  deriving Repr, DecidableEq
 
 def worldStep (port : Bytes) (w : World) (o : Outcome) : World :=
   match step w.entry o with
   | (e', none) => { w with entry := e' }
-  | (e', some (n, r)) =>
-    let (rr', evs) := applyChange w.rr port n r
-    { entry := e', rr := rr', index := applyIndex w.index evs }
+  | (e', some (n, r)) => { entry := e', rot := applyChange w.rot port n r }
 
 end Side.Res
